@@ -564,6 +564,53 @@ def desugar_try_branch(body, bi):
     return Body(j, body.crate)
 
 
+BOOL_THEN = ('core::bool::<impl bool>::then', 'std::bool::<impl bool>::then')
+
+
+def desugar_then(body, bi, cb):
+    """c.then(|| F())  ==  if c { Some(F()) } else { None }"""
+    j = copy.deepcopy(body.j)
+    t = j['blocks'][bi]['term']
+    span = j['blocks'][bi]['tspan']
+    target, dest = t['target'], t['dest']
+    a_c, a_clo = t['args'][0], t['args'][1]
+    clo_local = (a_clo.get('move') or a_clo.get('copy'))['l']
+    env_ty = cb.locals[1]['ty']
+
+    def new_local(ty):
+        j['locals'].append({'ty': ty, 'name': None, 'mut': True})
+        return len(j['locals']) - 1
+
+    def blk(stmts, term):
+        j['blocks'].append({'stmts': stmts, 'term': term, 'tspan': span, 'cleanup': False})
+        return len(j['blocks']) - 1
+    cp = a_c.get('move') or a_c.get('copy')
+    if cp is not None and not cp['p']:
+        c = cp['l']
+    else:
+        c = new_local('bool')
+        j['blocks'][bi]['stmts'].append({'k': 'assign', 'place': {'l': c, 'p': []}, 'rv': {'k': 'use', 'op': a_c}, 'span': span})
+    env = new_local(env_ty)
+    r = new_local(cb.j.get('ret_ty') or 'unknown')
+    n0 = len(j['blocks'])
+    n_call, n_wrap, n_none = n0, n0 + 1, n0 + 2
+    j['blocks'][bi]['term'] = {'k': 'switch', 'discr': {'move': {'l': c, 'p': []}}, 'targets': [['0', n_none]], 'otherwise': n_call}
+    if env_ty.startswith('&'):
+        env_rv = {'k': 'ref', 'mut': env_ty.startswith('&mut'), 'place': {'l': clo_local, 'p': []}}
+    else:
+        env_rv = {'k': 'use', 'op': {'move': {'l': clo_local, 'p': []}}}
+    blk([{'k': 'assign', 'place': {'l': env, 'p': []}, 'rv': env_rv, 'span': span}],
+        {'k': 'call', 'func': {'path': cb.path, 'full': cb.path, 'name': 'call', 'gargs': []},
+         'args': [{'move': {'l': env, 'p': []}}], 'dest': {'l': r, 'p': []}, 'target': n_wrap, 'unwind': None})
+    OPT = 'std::option::Option'
+    blk([{'k': 'assign', 'place': dest, 'rv': {'k': 'agg', 'agg': 'adt', 'adt': OPT, 'variant': 1, 'variant_name': 'Some', 'field_names': ['0'],
+                                              'fields': [{'move': {'l': r, 'p': []}}]}, 'span': span}], {'k': 'goto', 'target': target})
+    blk([{'k': 'assign', 'place': dest, 'rv': {'k': 'agg', 'agg': 'adt', 'adt': OPT, 'variant': 0, 'variant_name': 'None', 'field_names': [], 'fields': []},
+          'span': span}], {'k': 'goto', 'target': target})
+    nb = Body(j, body.crate)
+    return inline_once(nb, n_call, cb, closure_local=clo_local)
+
+
 MAP_ORS = {'std::result::Result::<T, E>::map_or': ('std::result::Result', 'Ok', 0, 'Err', 1),
            'std::option::Option::<T>::map_or': ('std::option::Option', 'Some', 1, 'None', 0)}
 
@@ -665,6 +712,16 @@ def desugar_adaptors(body, crate, max_rounds=16):
                 cb = crate.body(path) if path else None
                 if cb is not None and cb.arg_count == 2:
                     cur = desugar_map(cur, bi, cb, MAPS[t['func']['path']])
+                    used.add(path)
+                    did = True
+                    break
+                continue
+            if t['func'].get('path') in BOOL_THEN and len(t['args']) == 2 and t['target'] is not None:
+                cp = t['args'][1].get('move') or t['args'][1].get('copy')
+                path = _closure_of(cur, cp['l']) if cp is not None and not cp['p'] else None
+                cb = crate.body(path) if path else None
+                if cb is not None and cb.arg_count == 1:
+                    cur = desugar_then(cur, bi, cb)
                     used.add(path)
                     did = True
                     break
@@ -867,10 +924,8 @@ def split_literal_results(body):
     helper, a `break Err(..)`) flows into a `?`, write the `?` out and duplicate the tail per literal so that each copy
     takes the arm its literal decides; None when the function has no such merge"""
     from .engine import Fn
-    if not any(t['func'].get('path') == TRY_BRANCH for _bi, t in body.calls()):
-        return None
     nb = desugar_try_branches(body)
-    if nb is body or find_literal_merge(Fn(nb)) is None:
+    if find_literal_merge(Fn(nb)) is None:
         return None
     out = split_decisions(nb, max_splits=3, literal_only=True)
     return out if out is not nb else None
